@@ -297,7 +297,7 @@ def fOut (f : F) : Bool :=
 def verifyB (nowMS : Int) (c : C) : Bool :=
   !(decide (nowMS < 0) || decide (nowMS > maxTimeS * 1000)) &&
   !timeOut c.start &&
-  (match c.stop with | some s => !timeOut s | none => true) &&
+  (match c.stop with | some s => !timeOut s && decide (c.start ≤ s) | none => true) &&   -- (`fix:` commit: stop ≥ start)
   (match c.toff with | some f => !fOut f | none => true) &&
   (match c.ato with | .pinf => true | .fin m => !fOut (.fin m) && decide (0 ≤ m) | _ => false) &&
   (match c.chunk with | some f => !fOut f | none => true) &&
